@@ -30,8 +30,10 @@ From Coq Require Import List Arith Bool.
 From VF Require Import Lifecycle.Pool.
 Import ListNotations.
 
-Inductive op := Start | Stop.
-Inductive cpc := Idle | St_chk | St_spawn | St_setrun | St_rel
+(* StartF: a start() whose bind() fails (port taken by a foreign socket): the except branch closes the
+   socket, the lock is released by the with block, the call raises *)
+Inductive op := Start | Stop | StartF.
+Inductive cpc := Idle | St_chk | St_chkF | St_spawn | St_setrun | St_rel
                | Sp_chk | Sp_rel1 | Sp_join | Sp_clear | Sp_acq2 | Sp_reset | Sp_rel2.
 Inductive mpc := MNone | M_acq | M_chk | M_recv | M_close | MEnded.
 Inductive sk := SNone | SOpen | SClosed.
@@ -82,10 +84,14 @@ Section V.
         | None => None
         | Some Start => if lock_free g then Some (set_lock g LCaller, St_chk, true) else None
         | Some Stop => if lock_free g then Some (set_lock g LCaller, Sp_chk, true) else None
+        | Some StartF => if lock_free g then Some (set_lock g LCaller, St_chkF, true) else None
         end
     | St_chk =>
         if v_chkrun v && running g then Some (set_lock g LFree, Idle, false)
         else Some (set_sock g SOpen, St_spawn, false)
+    | St_chkF =>
+        if v_chkrun v && running g then Some (set_lock g LFree, Idle, false)
+        else Some (set_lock (set_sock g SClosed) LFree, Idle, false)      (* socket(); bind() raises; close(); raise *)
     | St_spawn =>
         let g1 := if mt_live (mt g) then set_err g else g in
         Some (set_mt (set_mref g1 true) M_acq, St_setrun, false)
